@@ -785,6 +785,10 @@ class KVEngine:
                         ctx.fail("wrong-exception", "construct-" + lit["kind"],
                                  "KnotVector(%r) must raise ValueError, raised %s" % (lit["items"], type(e).__name__))
             return {"res": "raise:" + type(e).__name__}
+        if not isinstance(kv, self.KnotVector):
+            if J03:
+                ctx.fail("illformed", "constructor-result", "KnotVector(...) returned %s instead of a KnotVector" % type(kv).__name__)
+            return {"res": "not-a-knotvector"}
         if not valid:
             ctx.fault("invalid-request:construct-" + lit["kind"])
             if J03:
@@ -862,6 +866,10 @@ class KVEngine:
                 return {"res": "accepted-odd"}
             self.pool[op["dst"]] = kv
             return {"res": "accepted-unspecified", "replaced": op["dst"], "touched": {op["dst"]}}
+        if not isinstance(kv, self.KnotVector):
+            if J03 or J18:
+                ctx.fail("generator-postcondition" if J18 else "illformed", g + "-result-type", "%s(...) returned %s instead of a KnotVector" % (g, type(kv).__name__))
+            return {"res": "not-a-knotvector"}
         ctx.transitions += 1
         if J18:
             self.judge_generator(ctx, op, kv, stub, ws)
